@@ -286,45 +286,50 @@ Print Assumptions C02_orderly_close_fin_ack.
                                      unless it is in the drop set; retransmission time-outs fired only when
                                      nothing else can happen) does is a schedule of that closed system
      C02_single_and_double_drops_outcome_bounded
-                                     BOUNDED-DOMAIN theorem (evaluation of the pump inside the kernel, 28 896
-                                     runs) - not the unbounded liveness claim.  Domain: 3 established
-                                     connections (initial sequence numbers next to 2^32 / 2^31 on either side,
-                                     and ordinary ones; MTU 80..120; buffers 1000..4096; timestamps; SACK off/on)
-                                     x 4 close orders (A first, B first, simultaneous, duplex; half-close then
-                                     data the other way when w2 > 0) x w1 in {0, 1, mss, 2*mss+3 in two
-                                     chunks} x w2 in {0, 5} x EVERY drop set of at most two frames among the
-                                     first 12 frames of either side.  For every element: the pump stops within
-                                     200 rounds; everything written is delivered, followed by end of stream,
-                                     in both directions; and either both endpoints end closed, no reset, at
-                                     most 12 frames each (so the drop sets ranged over every frame of the run)
-                                     - or the drop set contains the LAST frame emitted by an endpoint that
-                                     reached the closed state and its peer fails explicitly (error state,
-                                     exactly one reset).  The property text promises closed/closed only "when
-                                     no packet of the closing exchange is lost"; otherwise "the connection
-                                     fails with an explicit error"
+                                     BOUNDED-DOMAIN theorem (evaluation of the pump inside the kernel, 2 708
+                                     runs) - not the unbounded liveness claim.  Domain: one established
+                                     connection (initial sequence numbers 6 below 2^32 / 8 below 2^31, MTU 88,
+                                     4096-byte buffers, timestamps) x 4 close orders (A first, B first,
+                                     simultaneous, duplex; half-close then data the other way when w2 > 0) x w1
+                                     in {0, mss, 2*mss+3 in two chunks} x w2 in {0, 5} x EVERY drop set of
+                                     [dsets]: every single packet of the loss-free exchange, every pair of them,
+                                     every pair of one of them and one of the next 4 frames of either side (a
+                                     retransmission = the same packet lost again, or a provoked ACK).  For every
+                                     element: the pump stops within 200 rounds; everything written is delivered,
+                                     followed by end of stream, in both directions; and either both endpoints end
+                                     closed, no reset, at most 4 frames more than the loss-free count per side (so
+                                     the drop sets reached every frame of the run) - or the drop set contains the
+                                     LAST frame emitted by an endpoint that reached the closed state and its peer
+                                     fails explicitly (error state, exactly one reset).  The property text
+                                     promises closed/closed only "when no packet of the closing exchange is
+                                     lost"; otherwise "the connection fails with an explicit error"
      C02_single_and_double_drops_recovered_bounded
                                      the same domain, as a recovery statement: a run that did not lose the last
                                      frame of an endpoint that closed ends closed/closed, everything delivered
                                      with end of stream both ways, no reset
+     C02_single_drops_outcome_bounded_conn2
+                                     a second connection (initial sequence numbers 2^31-1 / 2^32-1, MTU 120/100,
+                                     buffers 1000/4096, SACK negotiated), the same 24 scenarios, every SINGLE
+                                     packet of the exchange dropped (224 runs): same outcome
+     C02_closing_window_drops_outcome_bounded
+                                     BOUNDED-DOMAIN theorem for a connection whose receiver's window CLOSES during
+                                     the transfer (64-byte receive buffer; 4 close orders x w1 = 80 x w2 in
+                                     {0, 5} x the drop sets of [dsets] = 1 404 runs, so the drop sets also hit
+                                     window updates): every run ends within the budget either with everything
+                                     delivered and closed/closed (or the final-ACK failure) or in the KNOWN
+                                     zero-window stall (an endpoint connected with data queued behind a zero
+                                     window, nothing in flight, no timer)
      C02_single_drop_final_ack_refuted
                                      "every single drop is recovered to closed/closed" is FALSE: there is no
                                      TIME-WAIT state; once an endpoint's main loop has exited it ignores every
                                      segment, so if its last ACK is lost the peer retransmits its FIN nine times
                                      and then resets (witness: A first, 75 + 5 bytes, A's frame 6)
-     C02_closing_window_drops_outcome_bounded
-                                     BOUNDED-DOMAIN theorem for a connection whose receiver's window CLOSES during
-                                     the transfer (64-byte receive buffer; 4 close orders x w1 in {64, 65, 80, 100
-                                     in two chunks} x w2 in {0, 5} x the same 301 drop sets = 9 632 runs, so the
-                                     drop sets also hit window updates): every run ends within the budget either
-                                     with everything delivered and closed/closed (or the final-ACK failure) or in
-                                     the KNOWN zero-window stall (an endpoint connected with data queued behind a
-                                     zero window, nothing in flight, no timer)
      C02_window_update_drop_stalls_refuted
                                      the KNOWN finding C02-zero-window-stall on two endpoints: a 64-byte receive
                                      buffer, 80 bytes written, the window-reopening ACK dropped - both endpoints
                                      stay connected for ever with 16 bytes queued and no timer running (the
                                      loss-free run of the same scenario completes) *)
-From NP Require Import Model.TcpHs Model.TcpEst Proofs.TcpNetP Model.TcpSys Proofs.TcpSysLiveP.
+From NP Require Import Model.TcpHs Model.TcpEst Proofs.TcpNetP Model.TcpSys Proofs.TcpSysLiveBaseP Proofs.TcpSysLiveP.
 
 Theorem C02_closed_system_incremental : forall a0 b0 ms,
   isys_run a0 b0 ms =
@@ -340,29 +345,60 @@ Proof. exact pump_is_schedule. Qed.
 Print Assumptions C02_pump_is_schedule.
 
 Theorem C02_single_and_double_drops_outcome_bounded :
-  forall c sc ds, In c configs -> In sc (scens c) -> In ds (drop_sets K) ->
-  let p := pump_run budget orc (fst c) (snd c) sc ds in
+  forall sc ds, In sc (scens cfg1) -> In ds (dsets cfg1 sc) ->
+  let p := pump_run budget orc (fst cfg1) (snd cfg1) sc ds in
   p_done p = true /\
   a_rd (p_appB p) = a_wr (p_appA p) /\ a_rd (p_appA p) = a_wr (p_appB p) /\
   a_eof (p_appA p) = true /\ a_eof (p_appB p) = true /\
   ((estate (sA (p_sys p)) = stClosed /\ estate (sB (p_sys p)) = stClosed /\
     no_rst (oA (p_sys p)) = true /\ no_rst (oB (p_sys p)) = true /\
-    (length (oA (p_sys p)) <= K)%nat /\ (length (oB (p_sys p)) <= K)%nat /\ lost_final p ds = false)
+    (length (oA (p_sys p)) <= margin + fst (nfr cfg1 sc))%nat /\
+    (length (oB (p_sys p)) <= margin + snd (nfr cfg1 sc))%nat /\ lost_final p ds = false)
    \/
    (lost_final p ds = true /\ explicit_failure p = true)).
 Proof. exact single_and_double_drops_outcome_bounded. Qed.
 Print Assumptions C02_single_and_double_drops_outcome_bounded.
 
 Theorem C02_single_and_double_drops_recovered_bounded :
-  forall c sc ds, In c configs -> In sc (scens c) -> In ds (drop_sets K) ->
-  let p := pump_run budget orc (fst c) (snd c) sc ds in
+  forall sc ds, In sc (scens cfg1) -> In ds (dsets cfg1 sc) ->
+  let p := pump_run budget orc (fst cfg1) (snd cfg1) sc ds in
   lost_final p ds = false -> recovered p = true.
 Proof. exact single_and_double_drops_recovered_bounded. Qed.
 Print Assumptions C02_single_and_double_drops_recovered_bounded.
 
+Theorem C02_single_drops_outcome_bounded_conn2 :
+  forall sc ds, In sc (scens cfg2) -> In ds (singles cfg2 sc) ->
+  let p := pump_run budget orc (fst cfg2) (snd cfg2) sc ds in
+  p_done p = true /\
+  a_rd (p_appB p) = a_wr (p_appA p) /\ a_rd (p_appA p) = a_wr (p_appB p) /\
+  a_eof (p_appA p) = true /\ a_eof (p_appB p) = true /\
+  ((estate (sA (p_sys p)) = stClosed /\ estate (sB (p_sys p)) = stClosed /\
+    no_rst (oA (p_sys p)) = true /\ no_rst (oB (p_sys p)) = true /\
+    (length (oA (p_sys p)) <= margin + fst (nfr cfg2 sc))%nat /\
+    (length (oB (p_sys p)) <= margin + snd (nfr cfg2 sc))%nat /\ lost_final p ds = false)
+   \/
+   (lost_final p ds = true /\ explicit_failure p = true)).
+Proof. exact single_drops_outcome_bounded_conn2. Qed.
+Print Assumptions C02_single_drops_outcome_bounded_conn2.
+
+Theorem C02_closing_window_drops_outcome_bounded :
+  forall sc ds, In sc zw_scens -> In ds (dsets zw_pair sc) ->
+  let p := pump_run budget orc (fst zw_pair) (snd zw_pair) sc ds in
+  p_done p = true /\
+  ((a_rd (p_appB p) = a_wr (p_appA p) /\ a_rd (p_appA p) = a_wr (p_appB p) /\
+    a_eof (p_appA p) = true /\ a_eof (p_appB p) = true /\
+    ((estate (sA (p_sys p)) = stClosed /\ estate (sB (p_sys p)) = stClosed /\
+      no_rst (oA (p_sys p)) = true /\ no_rst (oB (p_sys p)) = true /\
+      (length (oA (p_sys p)) <= margin + fst (nfr zw_pair sc))%nat /\
+      (length (oB (p_sys p)) <= margin + snd (nfr zw_pair sc))%nat)
+     \/ (lost_final p ds = true /\ explicit_failure p = true)))
+   \/ (zw_stalled (sA (p_sys p)) = true \/ zw_stalled (sB (p_sys p)) = true)).
+Proof. exact closing_window_drops_outcome_bounded. Qed.
+Print Assumptions C02_closing_window_drops_outcome_bounded.
+
 Theorem C02_single_drop_final_ack_refuted :
-  exists c sc ds, In c configs /\ In sc (scens c) /\ ds = [(true, 6%nat)] /\
-    let p := pump_run budget orc (fst c) (snd c) sc ds in
+  exists sc ds, In sc (scens cfg1) /\ In ds (dsets cfg1 sc) /\ ds = [(true, 6%nat)] /\
+    let p := pump_run budget orc (fst cfg1) (snd cfg1) sc ds in
     p_done p = true /\ delivered p = true /\
     estate (sA (p_sys p)) = stClosed /\ estate (sB (p_sys p)) = stError /\
     length (oA (p_sys p)) = 7%nat /\
@@ -382,16 +418,3 @@ Theorem C02_window_update_drop_stalls_refuted :
     len (a_rd (p_appB p)) = 64 /\ len (a_wr (p_appA p)) = 80.
 Proof. exact window_update_drop_stalls_refuted. Qed.
 Print Assumptions C02_window_update_drop_stalls_refuted.
-
-Theorem C02_closing_window_drops_outcome_bounded :
-  forall sc ds, In sc zw_scens -> In ds (drop_sets K) ->
-  let p := pump_run budget orc (fst zw_pair) (snd zw_pair) sc ds in
-  p_done p = true /\
-  ((a_rd (p_appB p) = a_wr (p_appA p) /\ a_rd (p_appA p) = a_wr (p_appB p) /\
-    a_eof (p_appA p) = true /\ a_eof (p_appB p) = true /\
-    ((estate (sA (p_sys p)) = stClosed /\ estate (sB (p_sys p)) = stClosed /\
-      no_rst (oA (p_sys p)) = true /\ no_rst (oB (p_sys p)) = true)
-     \/ (lost_final p ds = true /\ explicit_failure p = true)))
-   \/ (zw_stalled (sA (p_sys p)) = true \/ zw_stalled (sB (p_sys p)) = true)).
-Proof. exact closing_window_drops_outcome_bounded. Qed.
-Print Assumptions C02_closing_window_drops_outcome_bounded.
